@@ -1,67 +1,405 @@
+// c05probe — small deterministic reproducers for the C05 findings (replicated database,
+// 3 meta / 3 store / 1 sql on loopback). Usage: c05probe <scenario> [repo]
+//
+//	flushkill   a store is SIGKILLed while a memtable flush is in progress (after the raft
+//	            snapshot index was advanced, before the TSSP file exists); after it is
+//	            restarted and becomes master again, acknowledged points are gone
+//	replayrace  a follower is down during an overwrite, restarts (local raft-log replay runs
+//	            concurrently with the application of the entries it catches up), later
+//	            becomes master: the overwritten (old) value is served
+//	stale       reads right after the leader was killed (served by a replica that has not
+//	            applied the last acknowledged entries yet)
+//	meta        only print the meta data view (replica groups, pt view)
 package main
 
 import (
+	"encoding/json"
 	"fmt"
+	"io"
+	"net/http"
 	"os"
+	"sort"
+	"strings"
 	"time"
+
 	"verifharness/proc"
 )
 
-func leader(c *proc.Cluster, skip int) int {
+const db = "r3"
+
+type cluster struct{ *proc.Cluster }
+
+func logf(f string, a ...any) {
+	fmt.Printf("%s  %s\n", time.Now().Format("15:04:05.000"), fmt.Sprintf(f, a...))
+}
+
+// raftLeader: index of the store whose control port reports raft leadership for db (-1 none).
+func (c cluster) raftLeader(skip int) int {
 	for i := 0; i < 3; i++ {
-		if i == skip { continue }
+		if i == skip || !c.Stores[i].Alive() {
+			continue
+		}
 		st, err := c.StoreState(i)
-		if err != nil { continue }
+		if err != nil {
+			continue
+		}
 		pts, _ := st["partitions"].([]any)
 		for _, p := range pts {
-			m := p.(map[string]any)
-			if m["db"] == "r3" && m["leader"] == true { return i }
+			m, _ := p.(map[string]any)
+			if m["db"] == db && m["leader"] == true {
+				return i
+			}
 		}
 	}
 	return -1
 }
 
-func read(c *proc.Cluster) string {
-	r, err := c.Front.Query("r3", "SELECT v FROM m GROUP BY *", nil)
-	if err != nil { return "ERR " + err.Error() }
-	return r.Raw
+type metaView struct {
+	MasterPt  int
+	Status    int
+	Peers     []int       // slave pt ids in election order
+	PtOwner   map[int]int // pt -> store index
+	PtStatus  map[int]int
+	MasterIdx int // store index owning the master pt
+	Raw       string
+}
+
+// meta reads replica groups and the pt view from a ts-meta node's /getdata.
+func (c cluster) meta() (*metaView, error) {
+	var last error
+	for i := 0; i < 3; i++ {
+		resp, err := http.Get("http://" + c.Metas[i].IP + ":8091/getdata")
+		if err != nil {
+			last = err
+			continue
+		}
+		b, _ := io.ReadAll(resp.Body)
+		resp.Body.Close()
+		var d map[string]any
+		if err := json.Unmarshal(b, &d); err != nil {
+			last = fmt.Errorf("%v: %.200s", err, b)
+			continue
+		}
+		mv := &metaView{PtOwner: map[int]int{}, PtStatus: map[int]int{}, MasterIdx: -1}
+		nodeIdx := map[int]int{}
+		if dn, ok := d["DataNodes"].([]any); ok {
+			for _, n := range dn {
+				m, _ := n.(map[string]any)
+				id := int(num(m["ID"]))
+				host := fmt.Sprint(m["Host"])
+				for si := 0; si < 3; si++ {
+					if strings.HasPrefix(host, c.Stores[si].IP+":") {
+						nodeIdx[id] = si
+					}
+				}
+			}
+		}
+		if pv, ok := d["PtView"].(map[string]any); ok {
+			if l, ok := pv[db].([]any); ok {
+				for _, p := range l {
+					m, _ := p.(map[string]any)
+					o, _ := m["Owner"].(map[string]any)
+					pt := int(num(m["PtId"]))
+					mv.PtOwner[pt] = nodeIdx[int(num(o["NodeID"]))]
+					mv.PtStatus[pt] = int(num(m["Status"]))
+				}
+			}
+		}
+		if rg, ok := d["ReplicaGroups"].(map[string]any); ok {
+			if l, ok := rg[db].([]any); ok && len(l) > 0 {
+				m, _ := l[0].(map[string]any)
+				mv.MasterPt = int(num(m["MasterPtID"]))
+				mv.Status = int(num(m["Status"]))
+				if ps, ok := m["Peers"].([]any); ok {
+					for _, p := range ps {
+						pm, _ := p.(map[string]any)
+						mv.Peers = append(mv.Peers, int(num(pm["ID"])))
+					}
+				}
+				mv.MasterIdx = mv.PtOwner[mv.MasterPt]
+			}
+		}
+		keys := make([]string, 0, len(d))
+		for k := range d {
+			keys = append(keys, k)
+		}
+		sort.Strings(keys)
+		mv.Raw = strings.Join(keys, ",")
+		return mv, nil
+	}
+	return nil, last
+}
+
+func num(v any) float64 {
+	switch x := v.(type) {
+	case float64:
+		return x
+	case json.Number:
+		f, _ := x.Float64()
+		return f
+	}
+	return -1
+}
+
+func (m *metaView) String() string {
+	return fmt.Sprintf("masterPt=%d(store%d) rgStatus=%d slavePeers=%v ptOwner=%v ptStatus=%v", m.MasterPt, m.MasterIdx+1, m.Status, m.Peers, m.PtOwner, m.PtStatus)
+}
+
+func (c cluster) write(lines string) bool {
+	for i := 0; i < 80; i++ {
+		r := c.Front.Write(db, lines, nil)
+		if r.Acked() {
+			return true
+		}
+		logf("  write not acknowledged (status %d err %v body %.120s); retry", r.Status, r.Err, r.Body)
+		time.Sleep(500 * time.Millisecond)
+	}
+	logf("write never acknowledged")
+	return false
+}
+
+// read returns k -> v of measurement m (tag k, field v), or an error string.
+func (c cluster) read() (map[string]int64, string) {
+	r, err := c.Front.Query(db, "SELECT v FROM m GROUP BY *", nil)
+	if err != nil {
+		return nil, "ERR " + err.Error()
+	}
+	out := map[string]int64{}
+	for _, res := range r.Results {
+		for _, se := range res.Series {
+			for _, row := range se.Values {
+				var v int64
+				fmt.Sscan(fmt.Sprint(row[1]), &v)
+				out[se.Tags["k"]+"@"+fmt.Sprint(row[0])] = v
+			}
+		}
+	}
+	return out, ""
+}
+
+func (c cluster) waitReady(i int) bool {
+	for t := 0; t < 240; t++ {
+		if st, err := c.StoreState(i); err == nil && st["ready"] == true {
+			pts, _ := st["partitions"].([]any)
+			for _, p := range pts {
+				if m, _ := p.(map[string]any); m["db"] == db && m["raft"] == true {
+					return true
+				}
+			}
+		}
+		time.Sleep(500 * time.Millisecond)
+	}
+	return false
+}
+
+// waitMaster waits until meta names a master pt on a live store different from `not`.
+func (c cluster) waitMaster(not int) *metaView {
+	var mv *metaView
+	for t := 0; t < 120; t++ {
+		m, err := c.meta()
+		if err == nil {
+			mv = m
+			if m.MasterIdx >= 0 && m.MasterIdx != not && c.Stores[m.MasterIdx].Alive() {
+				return m
+			}
+		}
+		time.Sleep(500 * time.Millisecond)
+	}
+	return mv
+}
+
+func summary(m map[string]int64, errs string) string {
+	if errs != "" {
+		return errs
+	}
+	return fmt.Sprintf("%d points", len(m))
 }
 
 func main() {
-	variant := os.Args[1]
-	dir := "/var/tmp/verif-scratch/c05probe-" + variant
-	os.RemoveAll(dir)
-	c, err := proc.NewCluster("/repo", dir, dir, "127.9.7", false, nil)
-	if err != nil { fmt.Println(err); os.Exit(2) }
-	defer c.KillAll()
-	if err := c.StartAll(120 * time.Second); err != nil { fmt.Println(err); os.Exit(2) }
-	c.Front.Query("", "CREATE DATABASE r3 REPLICAS 3", nil)
-	w := func(v int) { for i := 0; i < 60; i++ { if c.Front.Write("r3", fmt.Sprintf("m,host=a v=%di 1700000002000000000\nm,host=a x=%di %d\n", v, v, 1700000100000000000+int64(v)*1000000000), nil).Acked() { return }; time.Sleep(500*time.Millisecond) }; fmt.Println("write never acked") }
-	w(1)
-	time.Sleep(4 * time.Second)
-	fmt.Println("after v1:", read(c))
-	L := leader(c, -1)
-	F := (L + 1) % 3
-	fmt.Println("leader", L, "follower victim", F)
-	if variant == "A" { // kill F before overwrite
-		c.Stores[F].Kill()
-		time.Sleep(time.Second)
-		w(2)
-		fmt.Println("after v2 (F down):", read(c))
-		c.Stores[F].Start()
-	} else {
-		w(2)
-		fmt.Println("after v2:", read(c))
-		c.Stores[F].Kill()
-		time.Sleep(2 * time.Second)
-		c.Stores[F].Start()
+	scenario := os.Args[1]
+	repo := "/repo"
+	if len(os.Args) > 2 {
+		repo = os.Args[2]
 	}
-	for i := 0; i < 120; i++ { if st, err := c.StoreState(F); err == nil && st["ready"] == true { break }; time.Sleep(500*time.Millisecond) }
-	time.Sleep(8 * time.Second)
-	fmt.Println("F back; read:", read(c), "leader now", leader(c, -1))
-	L = leader(c, -1)
-	c.Stores[L].Kill()
-	for i := 0; i < 20; i++ { time.Sleep(2 * time.Second); fmt.Println("after leader kill: leader", leader(c, L), read(c)) ; if i >= 3 { break } }
-	w(3)
-	fmt.Println("after v3:", read(c))
+	dir := fmt.Sprintf("/var/tmp/verif-scratch/c05probe-%s-%d", scenario, os.Getpid())
+	os.RemoveAll(dir)
+	base := fmt.Sprintf("127.9.%d", os.Getpid()%200+20)
+	pc, err := proc.NewCluster(repo, dir, dir, base, false, nil)
+	if err != nil {
+		fmt.Println(err)
+		os.Exit(2)
+	}
+	c := cluster{pc}
+	defer func() {
+		c.KillAll()
+		if os.Getenv("VERIF_KEEP_SCRATCH") == "" {
+			os.RemoveAll(dir)
+		} else {
+			logf("scratch kept: %s", dir)
+		}
+	}()
+	if err := c.StartAll(180 * time.Second); err != nil {
+		fmt.Println(err)
+		return
+	}
+	c.Front.HTTP.Timeout = 25 * time.Second
+	if _, err := c.Front.Query("", "CREATE DATABASE "+db+" REPLICAS 3", nil); err != nil {
+		fmt.Println("create database:", err)
+		return
+	}
+	const T0 = int64(1_700_000_000) * 1_000_000_000
+	pt := func(k string, ti int, v int64) string { return fmt.Sprintf("m,k=%s v=%di %d\n", k, v, T0+int64(ti)*1_000_000_000) }
+	if !c.write(pt("warm", 0, 1)) {
+		return
+	}
+	time.Sleep(3 * time.Second)
+	mv, err := c.meta()
+	if err != nil {
+		fmt.Println("meta:", err)
+		return
+	}
+	logf("meta keys: %s", mv.Raw)
+	logf("meta: %v; raft leader: store%d", mv, c.raftLeader(-1)+1)
+	switch scenario {
+	case "meta":
+		return
+
+	case "flushkill":
+		// 1. 20 acknowledged points, applied everywhere
+		for i := 0; i < 20; i++ { // 20 separate requests = 20 raft entries
+			if !c.write(pt("a", i, int64(100+i))) {
+				return
+			}
+		}
+		time.Sleep(2 * time.Second)
+		got, e := c.read()
+		logf("after 20 acknowledged points: read: %s", summary(got, e))
+		// 2. the master's store X is killed inside writeSnapshot: after the WAL switch (the raft
+		// snapshot index has been advanced through RaftFlushC) and before the file is written
+		x := mv.MasterIdx
+		logf("store%d (master pt %d): park the flush after the memtable switch, then SIGKILL", x+1, mv.MasterPt)
+		_ = c.StoreCtl(x, "POST", "/verif/points", "flush-after-wal-switch=sleep(8000)")
+		go c.StoreCtl(x, "POST", "/verif/flush", "")
+		time.Sleep(2 * time.Second)
+		c.Stores[x].Kill()
+		m2 := c.waitMaster(x)
+		logf("meta after kill: %v", m2)
+		if !c.write(pt("b", 0, 1)) {
+			return
+		}
+		got, e = c.read()
+		logf("one store down, read from the new master: %s", summary(got, e))
+		// 3. restart X, let it catch up
+		_ = c.Stores[x].Start()
+		if !c.waitReady(x) {
+			logf("store did not come back")
+			return
+		}
+		time.Sleep(10 * time.Second)
+		m3, _ := c.meta()
+		logf("store%d restarted; meta: %v", x+1, m3)
+		// 4. kill the current master until X is master again (at most 3 rounds; one store down at a time)
+		for round := 0; round < 3; round++ {
+			cur, _ := c.meta()
+			if cur.MasterIdx == x {
+				break
+			}
+			k := cur.MasterIdx
+			logf("kill current master store%d", k+1)
+			c.Stores[k].Kill()
+			m4 := c.waitMaster(k)
+			logf("meta: %v", m4)
+			c.write(pt("b", 1+round, 1))
+			got, e = c.read()
+			logf("read while store%d is down (master store%d): %s", k+1, m4.MasterIdx+1, summary(got, e))
+			if m4.MasterIdx == x {
+				n := 0
+				for i := 0; i < 20; i++ {
+					if _, ok := got[fmt.Sprintf("a@%d", T0+int64(i)*1_000_000_000)]; !ok {
+						n++
+					}
+				}
+				logf("RESULT flushkill: %d of the 20 acknowledged points are missing when the restarted store serves", n)
+			}
+			_ = c.Stores[k].Start()
+			c.waitReady(k)
+			time.Sleep(8 * time.Second)
+		}
+
+	case "replayrace":
+		// filler entries make the local replay of the restarted follower long
+		f := -1
+		if len(mv.Peers) > 0 {
+			f = mv.PtOwner[mv.Peers[0]] // first slave peer: becomes master when the master dies
+		}
+		logf("follower under test: store%d", f+1)
+		nFill := 400
+		for i := 0; i < nFill; i++ {
+			if !c.write(pt("fill", i, int64(i))) {
+				return
+			}
+		}
+		// keys K0..K9 = 1 (old value), last entries before the kill
+		for i := 0; i < 10; i++ {
+			c.write(pt(fmt.Sprintf("K%d", i), 0, 1))
+		}
+		time.Sleep(time.Second)
+		logf("kill follower store%d", f+1)
+		c.Stores[f].Kill()
+		time.Sleep(time.Second)
+		for i := 0; i < 10; i++ {
+			c.write(pt(fmt.Sprintf("K%d", i), 0, 2)) // overwrite while the follower is down
+		}
+		got, e := c.read()
+		logf("after overwrite (follower down): K0=%d K9=%d %s", got[fmt.Sprintf("K0@%d", T0)], got[fmt.Sprintf("K9@%d", T0)], e)
+		_ = c.Stores[f].Start()
+		if !c.waitReady(f) {
+			logf("follower did not come back")
+			return
+		}
+		time.Sleep(12 * time.Second)
+		cur, _ := c.meta()
+		logf("follower restarted; meta: %v", cur)
+		k := cur.MasterIdx
+		logf("kill master store%d", k+1)
+		c.Stores[k].Kill()
+		m4 := c.waitMaster(k)
+		logf("meta: %v", m4)
+		c.write(pt("b", 0, 1))
+		got, e = c.read()
+		old := 0
+		for i := 0; i < 10; i++ {
+			if got[fmt.Sprintf("K%d@%d", i, T0)] != 2 {
+				old++
+			}
+		}
+		logf("RESULT replayrace: master store%d (restarted follower: %v): %d of 10 overwritten keys read back with a value != 2; %s", m4.MasterIdx+1, m4.MasterIdx == f, old, summary(got, e))
+
+	case "stale":
+		k := mv.MasterIdx
+		n := 0
+		for round := 0; round < 30; round++ {
+			if !c.write(pt("s", round, int64(round+1))) {
+				return
+			}
+			n++
+		}
+		// last acknowledged write, then kill the master immediately and read
+		c.write(pt("s", 1000, 7))
+		c.Stores[k].Kill()
+		logf("last write acknowledged; master store%d killed", k+1)
+		for i := 0; i < 24; i++ {
+			logf("read %d starts", i)
+			got, e := c.read()
+			_, has := got[fmt.Sprintf("s@%d", T0+1000*1_000_000_000)]
+			logf("read %d after master kill: %s, last acknowledged point present: %v", i, summary(got, e), has)
+			if !has {
+				r, err := c.Front.Query(db, "SELECT v FROM m WHERE k='s' AND time >= 1700000029000000000 GROUP BY *", nil)
+				if r != nil {
+					logf("   raw (status %d, err %v): %s", r.Status, err, strings.TrimSpace(r.Raw))
+				}
+			}
+			time.Sleep(250 * time.Millisecond)
+		}
+	}
 }
